@@ -30,6 +30,8 @@ import (
 	"net"
 	"net/netip"
 	"os"
+	"path/filepath"
+	"sort"
 	"strconv"
 	"strings"
 	"testing"
@@ -401,6 +403,95 @@ func vC10Sockaddr4(ap netip.AddrPort) []byte {
 	return sa
 }
 
+// ---------------------------------------------------------------- corpus
+//
+// corpus/C10/seq-*.json: fixed operation histories on the real engine pieces, replayed before
+// the generated ones (minimal inputs of the seeded changes and mutations this driver caught).
+//
+//	{"name": "...", "cap": 2, "queue": 1, "workers": 1, "batchtx": true, "inline": false, "sockets": 1,
+//	 "ops": [{"op": "take", "r": 0}, {"op": "recv", "r": 0, "pkts": [{"client": 0, "reply": [20]}]},
+//	         {"op": "portable", "r": 0, "pkts": [{"client": 1, "reply": [12]}]}, {"op": "work", "w": 0}, {"op": "flush", "w": 0}]}
+//
+// a packet: client 0..2; hdr "" (accepted) | "short" | "qr" | "opcode" | "counts"; "reply": sizes the
+// main pass Writes; "lease": build the first reply in the leased TX buffer; "inline": sizes the
+// inline pass Writes; "handoff": the inline pass declines; "ok": false = undecodable body;
+// "fail": "trunc" | "short-sockaddr" | "bad-family" (the receive itself fails).
+type vC10SeqCorpusPkt struct {
+	Client  int    `json:"client"`
+	Hdr     string `json:"hdr"`
+	Reply   []int  `json:"reply"`
+	Lease   bool   `json:"lease"`
+	Inline  []int  `json:"inline"`
+	Handoff bool   `json:"handoff"`
+	Ok      *bool  `json:"ok"`
+	Fail    string `json:"fail"`
+}
+type vC10SeqCorpusOp struct {
+	Op   string             `json:"op"`
+	R    int                `json:"r"`
+	W    int                `json:"w"`
+	Pkts []vC10SeqCorpusPkt `json:"pkts"`
+}
+type vC10SeqCorpusCase struct {
+	Name    string            `json:"name"`
+	Cap     int               `json:"cap"`
+	Queue   int               `json:"queue"`
+	Workers int               `json:"workers"`
+	BatchTX bool              `json:"batchtx"`
+	Inline  bool              `json:"inline"`
+	Sockets int               `json:"sockets"`
+	Ops     []vC10SeqCorpusOp `json:"ops"`
+}
+
+func vC10LoadSeqCorpus() []vC10SeqCorpusCase {
+	dir := os.Getenv("VERIF_CORPUS")
+	if dir == "" {
+		return nil
+	}
+	files, _ := filepath.Glob(filepath.Join(dir, "seq-*.json"))
+	sort.Strings(files)
+	var out []vC10SeqCorpusCase
+	for _, p := range files {
+		if b, err := os.ReadFile(p); err == nil {
+			var cs []vC10SeqCorpusCase
+			if json.Unmarshal(b, &cs) == nil {
+				out = append(out, cs...)
+			}
+		}
+	}
+	return out
+}
+
+// build turns a corpus packet into wire bytes and a handler script.
+func (p *vC10SeqCorpusPkt) build(id uint16, inlineOn bool) ([]byte, *vC10Script) {
+	pkt := []byte{byte(id >> 8), byte(id), 1, 0, 0, 1, 0, 0, 0, 0, 0, 0, 5, 5, 5, 5}
+	switch p.Hdr {
+	case "short":
+		pkt = pkt[:5]
+	case "qr":
+		pkt[2] |= 0x80
+	case "opcode":
+		pkt[2] |= 2 << 3
+	case "counts":
+		pkt[5] = 2
+	}
+	sc := &vC10Script{ok: p.Ok == nil || *p.Ok}
+	for i, n := range p.Reply {
+		if i == 0 && p.Lease {
+			sc.main = append(sc.main, vC10Hop{kind: vC10HopLease}, vC10Hop{vC10HopAppend, vC10CorpusPayload(id, n)}, vC10Hop{kind: vC10HopWriteLease})
+			continue
+		}
+		sc.main = append(sc.main, vC10Hop{vC10HopWrite, vC10CorpusPayload(id, n)})
+	}
+	if inlineOn {
+		for _, n := range p.Inline {
+			sc.inl = append(sc.inl, vC10Hop{vC10HopWrite, vC10CorpusPayload(id, n)})
+		}
+		sc.handoff = p.Handoff
+	}
+	return pkt, sc
+}
+
 func TestVerifC10Seq(t *testing.T) {
 	out := os.Getenv("VERIF_OUT")
 	if out == "" {
@@ -477,8 +568,13 @@ func TestVerifC10Seq(t *testing.T) {
 		_, _ = f.Write(append(b, '\n'))
 	}
 
-	for cn := 0; cn < n; cn++ {
+	corpus := vC10LoadSeqCorpus()
+	for cn := -len(corpus); cn < n; cn++ {
 		r := g.r
+		var fixed *vC10SeqCorpusCase
+		if cn < 0 {
+			fixed = &corpus[cn+len(corpus)]
+		}
 		shape := r.Intn(12)
 		capN, qcap, workers := 2+r.Intn(5), 1+r.Intn(3), 1+r.Intn(2)
 		if shape == 0 { // room for a full burst
@@ -486,9 +582,12 @@ func TestVerifC10Seq(t *testing.T) {
 		}
 		batchtx := r.Intn(4) != 0
 		inlineOn := r.Intn(2) == 0
+		if fixed != nil {
+			shape, capN, qcap, workers, batchtx, inlineOn = 1, max(2, fixed.Cap), max(1, fixed.Queue), max(1, fixed.Workers), fixed.BatchTX, fixed.Inline
+		}
 		h := &vC10SeqHandler{scripts: map[uint16]*vC10Script{}, inline: inlineOn}
 		pcs := []*net.UDPConn{pc}
-		if shape != 0 && r.Intn(4) == 0 {
+		if (fixed == nil && shape != 0 && r.Intn(4) == 0) || (fixed != nil && fixed.Sockets == 2) {
 			pcs = append(pcs, pc2)
 		}
 		plan := resourcePlan{udpSockets: len(pcs), udpWorkers: workers, udpQueue: qcap}
@@ -516,6 +615,140 @@ func TestVerifC10Seq(t *testing.T) {
 			nops = 90
 		}
 		flush(4)
+		if fixed != nil {
+			nops = 0
+			for _, o := range fixed.Ops {
+				if c.panicked != "" {
+					break
+				}
+				sentinel(c, capN, qcap, workers, batchtx)
+				ri := min(max(o.R, 0), len(c.rs)-1)
+				w := min(max(o.W, 0), workers-1)
+				var mine []*udpJob
+				for _, j := range c.held {
+					if c.rdOf[j] == ri {
+						mine = append(mine, j)
+					}
+				}
+				switch o.Op {
+				case "take":
+					var j *udpJob
+					if !c.guard(func() {
+						j = e.take(c.rs[ri].idx)
+						if j != nil {
+							j.transition(udpJobFree, udpJobReading)
+						}
+					}) {
+						break
+					}
+					if j == nil {
+						c.ops = append(c.ops, fmt.Sprintf("UTake %d 0 false", ri))
+					} else {
+						c.held = append(c.held, j)
+						c.rdOf[j] = ri
+						c.ops = append(c.ops, fmt.Sprintf("UTake %d %d true", ri, c.sid(j)))
+					}
+				case "recv":
+					rr := c.rs[ri]
+					cnt := min(len(o.Pkts), len(mine), udpBatchSize)
+					if cnt == 0 {
+						continue
+					}
+					batch := append([]*udpJob(nil), mine[:cnt]...)
+					for i, j := range batch {
+						rr.arm(j, i)
+					}
+					now := time.Now()
+					for i, j := range batch {
+						cp := &o.Pkts[i]
+						cl := min(max(cp.Client, 0), nClients-1)
+						id := g.id()
+						pkt, sc := cp.build(id, inlineOn)
+						h.scripts[id] = sc
+						hd := &rr.hdrs[i]
+						copy(j.rx[:], pkt)
+						hd.dlen = uint32(len(pkt))
+						sa := vC10Sockaddr4(caddr[cl])
+						copy(rr.names[i][:], sa)
+						hd.hdr.Namelen = uint32(len(sa))
+						hd.hdr.Flags = 0
+						switch cp.Fail {
+						case "trunc":
+							hd.hdr.Flags = unix.MSG_TRUNC
+						case "short-sockaddr":
+							hd.hdr.Namelen = 1
+						case "bad-family":
+							binary.NativeEndian.PutUint16(rr.names[i][0:2], unix.AF_UNIX)
+						}
+						c.dropHeld(j)
+						ok := c.guard(func() {
+							rr.finishRecv(i, now)
+							e.overflowG.Wait()
+						})
+						if cp.Fail != "" {
+							c.ops = append(c.ops, fmt.Sprintf("URecvFail %d %d", ri, c.sid(j)))
+						} else {
+							c.ops = append(c.ops, fmt.Sprintf("URecv %d %d true %s %d %s %s", ri, c.sid(j), vC10Bool(inlineOn), cl+1+1024*ri, vC10RLE(pkt), sc.coq()))
+						}
+						if !ok {
+							break
+						}
+					}
+					if c.panicked == "" {
+						c.guard(func() {
+							if rr.txBurst.n > 0 {
+								e.flushTX(&rr.txBurst)
+							}
+						})
+						c.ops = append(c.ops, fmt.Sprintf("UFlush %d", workers+ri))
+					}
+				case "portable":
+					if len(mine) == 0 || len(o.Pkts) == 0 {
+						continue
+					}
+					j := mine[0]
+					cp := &o.Pkts[0]
+					cl := min(max(cp.Client, 0), nClients-1)
+					id := g.id()
+					pkt, sc := cp.build(id, false)
+					h.scripts[id] = sc
+					c.dropHeld(j)
+					c.guard(func() {
+						copy(j.rx[:], pkt)
+						j.rxLen = len(pkt)
+						j.readTime = time.Now()
+						j.setRemote(caddr[cl])
+						j.pc = c.pcs[ri]
+						j.pktinfoLen = 0
+						j.rawSALen = 0
+						e.enqueue(j)
+						e.overflowG.Wait()
+					})
+					c.portables++
+					c.ops = append(c.ops, fmt.Sprintf("URecv %d %d false false %d %s %s", ri, c.sid(j), cl+1+1024*ri, vC10RLE(pkt), sc.coq()))
+				case "work":
+					c.guard(func() {
+						select {
+						case j := <-e.ready:
+							e.serve(j, &c.bursts[w])
+							if !c.blocked[w] && c.bursts[w].full() {
+								e.flushTX(&c.bursts[w])
+							}
+							c.blocked[w] = false
+						default:
+							if !c.blocked[w] {
+								e.flushTX(&c.bursts[w])
+								c.blocked[w] = true
+							}
+						}
+					})
+					c.ops = append(c.ops, fmt.Sprintf("UWork %d", w))
+				case "flush":
+					c.guard(func() { e.flushTX(&c.bursts[w]) })
+					c.ops = append(c.ops, fmt.Sprintf("UFlush %d", w))
+				}
+			}
+		}
 		for op := 0; op < nops && c.panicked == ""; op++ {
 			sentinel(c, capN, qcap, workers, batchtx)
 			k := r.Intn(100)
@@ -770,6 +1003,9 @@ func TestVerifC10Seq(t *testing.T) {
 		}
 		if len(pcs) == 2 {
 			kind += "-2sock"
+		}
+		if fixed != nil {
+			kind = "corpus:" + fixed.Name
 		}
 		line := map[string]any{
 			"k": kind,
